@@ -330,7 +330,81 @@ func runTermEntry(a *Analyzer, r *Results) {
 	r.Check("F9.entry", props("C07", "C08", "C17", "C01", "C10"), "a consensus message is handed to a term only by the raw-message filter (own-sender, instance and height checks, future cache): no other library code calls the term's HandleConsensusMessage", "HandleConsensusMessage", pos, len(bad) == 0, "delivered to the term directly from "+strings.Join(bad, ", "), "W")
 }
 
+// U9.who: the worker's inbound channels have one producer: the main loop goroutine. A second route into them (a public API
+// method sending directly) lets a later message overtake an earlier one that is still travelling through the main loop,
+// and breaks the single-producer assumption of the overwrite hand-off.
+func runWorkerProducers(a *Analyzer, r *Results) {
+	mainRun := a.P.Func(idMainRun)
+	onlyFromMain := func(f *ssa.Function) (bool, string) {
+		seen := map[*ssa.Function]bool{}
+		var up func(g *ssa.Function, d int) (bool, string)
+		up = func(g *ssa.Function, d int) (bool, string) {
+			if g == mainRun {
+				return true, ""
+			}
+			if seen[g] {
+				return true, ""
+			}
+			seen[g] = true
+			if d > 5 {
+				return false, shortName(g)
+			}
+			if g.Object() != nil && g.Object().Exported() && g.Parent() == nil {
+				return false, shortName(g) + " (public API, runs on the caller's goroutine)"
+			}
+			cs := a.staticCallers(g)
+			if len(cs) == 0 {
+				return false, shortName(g) + " (no caller in the main loop)"
+			}
+			for _, c := range cs {
+				if ok, w := up(c, d+1); !ok {
+					return false, w
+				}
+			}
+			return true, ""
+		}
+		return up(f, 0)
+	}
+	isWorkerChan := func(c *FCtx, v ssa.Value) bool {
+		t := c.Term(v)
+		return strings.Contains(t.Key(), "(this:leanhelix.WorkerLoop)") && t.Op == "field"
+	}
+	n := 0
+	for _, op := range a.chanOps() {
+		f := op.fn
+		if funcPkgPath(f) != modPath {
+			continue
+		}
+		c := a.NewFCtx(f, a.EntryEnv(f, nil), 0)
+		var chans []ssa.Value
+		switch x := op.in.(type) {
+		case *ssa.Send:
+			chans = append(chans, x.Chan)
+		case *ssa.Select:
+			for _, st := range x.States {
+				if st.Dir == types.SendOnly {
+					chans = append(chans, st.Chan)
+				}
+			}
+		}
+		for _, ch := range chans {
+			if !isWorkerChan(c, ch) {
+				continue
+			}
+			n++
+			ok, who := onlyFromMain(f)
+			r.Check("U9.who", props("C17", "C14", "C05", "C19"), "only the main loop's goroutine sends into the worker's inbound channels (messages, election triggers, syncs): one producer, one order", shortName(f)+"|"+PP(c.Term(ch)), a.P.InstrPos(op.in), ok,
+				"the send in "+shortName(f)+" can run outside the main loop: reached from "+who, "W")
+		}
+	}
+	if n == 0 {
+		r.Undecided = append(r.Undecided, "no send into a worker channel found (U9.who anchor)")
+	}
+}
+
 func runR3(a *Analyzer, r *Results) {
+	runMutableState(a, r)
+	runWorkerProducers(a, r)
 	runTermEntry(a, r)
 	runFactoryPass(a, r)
 	runFactoryNil(a, r)
